@@ -24,6 +24,10 @@ SNIPPETS = [
     ("fullA0", "1 U.S. 10.", "FullCaseCitation", 0),  # the same document as fullA, cited bare (no party names)
     ("fullA4", "Foo v. Bar, 1 U.S. (1 Dall.) 10 (1790).", "FullCaseCitation", 0),  # the same document written with its nominative parenthetical (other matched text)
     ("fullB", "Smith v. Jones, 1 U.S. 50 (1991).", "FullCaseCitation", 0),
+    # one written reporter string that the year maps to two different editions, and the canonical spelling of one of them
+    ("fullM1", "Doe v. Poe, 3 Marsh. 45 (Ky. 1820).", "FullCaseCitation", 0),  # A.K. Marsh.
+    ("fullM2", "Doe v. Poe, 3 Marsh. 45 (Ky. 1830).", "FullCaseCitation", 0),  # J.J. Marsh.: same matched text as fullM1, other document
+    ("fullM3", "Doe v. Poe, 3 J.J. Marsh. 45 (Ky. 1830).", "FullCaseCitation", 0),  # the same document as fullM2
     ("fullC", "Bar v. Baker, 2 F.2d 20 (1992).", "FullCaseCitation", 0),
     ("fullC3", "Kim v. Lee, 2 F.3d 20 (1995).", "FullCaseCitation", 0),  # same volume/page as fullC, sibling series
     ("fullP", "Roe v. Wade, 410 U.S. ___ (1973).", "FullCaseCitation", 0),
@@ -51,13 +55,15 @@ SNIPPETS = [
     ("idNoPin", "Id.", "IdCitation", 0),
     ("idValid", "Id. at 12.", "IdCitation", 0),
     ("idBefore", "Id. at 5.", "IdCitation", 0),
+    ("idEdgeIn", "Id. at 160.", "IdCitation", 0),  # last page of the accepted window for first page 10
+    ("idEdgeOut", "Id. at 161.", "IdCitation", 0),  # first page beyond it
     ("idFar", "Id. at 900.", "IdCitation", 0),
     ("idPara", "Id. at ¶ 5.", "IdCitation", 0),
     ("unknown", "§ 5", "UnknownCitation", 0),
 ]
 NAMES = [s[0] for s in SNIPPETS]
-CORE12 = ["fullA", "fullA0", "fullA2", "fullA3", "fullB", "fullC", "fullC3", "fullP", "fullQ", "fullU", "shortAmb", "shortAmbJones", "shortP", "shortPQux", "supraBar", "refJones", "idNoPin", "idValid", "unknown"]
-CLASS = {"fullA": "A", "fullA2": "A", "fullA0": "A", "fullA3": "A", "fullA4": "A", "jour2": "jour", "lawU1": "lawU", "lawU2": "lawU", "fullB": "B", "fullC": "C", "fullC3": "C3", "fullP": "P", "fullQ": "Q", "fullU": "U", "law": "law", "lawR1": "lawR1", "lawR2": "lawR2", "jour": "jour", "jourP": "jourP"}
+CORE12 = ["fullA", "fullA0", "fullA2", "fullA3", "fullB", "fullC", "fullC3", "fullP", "fullQ", "fullU", "shortAmb", "shortAmbJones", "shortP", "shortPQux", "supraBar", "refJones", "idNoPin", "idValid", "idEdgeOut", "unknown"]
+CLASS = {"fullA": "A", "fullA2": "A", "fullA0": "A", "fullA3": "A", "fullA4": "A", "fullM1": "MA", "fullM2": "MJ", "fullM3": "MJ", "jour2": "jour", "lawU1": "lawU", "lawU2": "lawU", "fullB": "B", "fullC": "C", "fullC3": "C3", "fullP": "P", "fullQ": "Q", "fullU": "U", "law": "law", "lawR1": "lawR1", "lawR2": "lawR2", "jour": "jour", "jourP": "jourP"}
 PLACEHOLDER_CLASSES = ("P", "Q", "U")  # every instance is its own resource: the canonical state counts them (capped at 2)
 K = {}
 
@@ -75,6 +81,8 @@ def build_alphabet():
     assert is_placeholder(K["fullP"]) and is_placeholder(K["fullQ"]) and is_placeholder(K["fullU"]) and is_placeholder(K["jourP"])
     assert K["shortPQux"].metadata.antecedent_guess == "Qux" and norm_reporter(K["shortP"]) == norm_reporter(K["fullP"])
     assert K["refJones"].metadata.defendant == "Jones"
+    assert norm_reporter(K["fullM1"]) == "A.K. Marsh." and norm_reporter(K["fullM2"]) == norm_reporter(K["fullM3"]) == "J.J. Marsh."
+    assert K["fullM1"].matched_text() == K["fullM2"].matched_text()
     return K
 
 
@@ -284,6 +292,19 @@ def oracle_c08(objs, res, pres=None):
         restr = [idx for idx in restr if idx]
         if pg != restr:
             out.append(("prefix", f"resolve(prefix)={pg} but resolve(whole) restricted to the prefix={restr}"))
+        # the same objects again: every shorter prefix, then the whole list once more (state kept on the citation
+        # objects or in the module between calls would make a later call differ from the first)
+        if len(objs) <= 6:
+            for j in range(len(objs) - 2, 0, -1):
+                pj, _, _ = index_view(objs[:j], resolve_citations(objs[:j]))
+                rj = [[i for i in idx if i < j] for idx in groups]
+                rj = [idx for idx in rj if idx]
+                if pj != rj:
+                    out.append(("prefix-again", f"after resolving the whole list, resolve(prefix of length {j}) on the same objects={pj} but the whole restricted to it={rj}"))
+                    break
+            g2, _, _ = index_view(objs, resolve_citations(objs))
+            if g2 != groups:
+                out.append(("whole-again", f"resolving the same list again gives {g2}, first time {groups}"))
     return out
 
 
